@@ -52,6 +52,7 @@ func runOne(t *testing.T, prop, tier string, base uint64, index int, tapes *Tape
 	}
 	running.Store(true)
 	defer running.Store(false)
+	raceMark := raceLogSize()
 	func() {
 		defer func() {
 			if e := recover(); e != nil {
@@ -65,7 +66,24 @@ func runOne(t *testing.T, prop, tier string, base uint64, index int, tapes *Tape
 				res.Harness = "panic: " + msg + "\n" + string(buf[:n])
 			}
 		}()
-		synctest.Test(t, func(t *testing.T) {
+		// In a race build the testing package fails the bubble's T when the detector
+		// reported something and then FailNow()s (Goexit) the calling goroutine: keep that
+		// away from the worker loop, the reports themselves are collected by vcheck.
+		bubble := func(f func(t *testing.T)) {
+			if !simrt.RaceBuild {
+				synctest.Test(t, f)
+				return
+			}
+			done := make(chan any, 1)
+			go func() {
+				defer func() { done <- recover() }()
+				synctest.Test(t, f)
+			}()
+			if e := <-done; e != nil {
+				panic(e)
+			}
+		}
+		bubble(func(t *testing.T) {
 			defer r.Finish()
 			defer func() {
 				if e := recover(); e != nil {
@@ -80,7 +98,12 @@ func runOne(t *testing.T, prop, tier string, base uint64, index int, tapes *Tape
 			sc.Run(r)
 		})
 	}()
-	if tapes == nil && (res.Viol != nil || res.Harness != "") {
+	if simrt.RaceBuild {
+		if txt := raceLogSince(raceMark); strings.Contains(txt, "WARNING: DATA RACE") {
+			res.Race = txt
+		}
+	}
+	if tapes == nil && (res.Viol != nil || res.Harness != "" || res.Race != "") {
 		res.Tapes = &Tapes{W: r.W.Rec, S: r.S.Rec, F: r.F.Rec, A: r.A.Rec}
 	}
 	return res
@@ -194,4 +217,68 @@ func TestSim(t *testing.T) {
 			w.Flush()
 		}
 	}
+}
+
+// raceLogPath is the race detector's log file of this process (GORACE log_path=<p> -> <p>.<pid>).
+func raceLogPath() string {
+	for _, f := range strings.Fields(os.Getenv("GORACE")) {
+		if strings.HasPrefix(f, "log_path=") {
+			return fmt.Sprintf("%s.%d", strings.TrimPrefix(f, "log_path="), os.Getpid())
+		}
+	}
+	return ""
+}
+
+func raceLogSize() int64 {
+	if !simrt.RaceBuild {
+		return 0
+	}
+	if st, err := os.Stat(raceLogPath()); err == nil {
+		return st.Size()
+	}
+	return 0
+}
+
+// raceLogSince returns the detector reports written since off whose two access stacks both
+// lie in gate code. The harness itself (worlds, simnet, peers) shares state between
+// simulated goroutines under the simulator's serialization, which the detector cannot see;
+// those reports are dropped. simrt frames (MapKeys, lock emulation) are transparent.
+func raceLogSince(off int64) string {
+	b, err := os.ReadFile(raceLogPath())
+	if err != nil || int64(len(b)) <= off {
+		return ""
+	}
+	var keep []string
+	for _, rep := range strings.Split(string(b[off:]), "==================") {
+		if !strings.Contains(rep, "WARNING: DATA RACE") {
+			continue
+		}
+		blocks := strings.Split(strings.TrimSpace(rep), "\n\n")
+		if len(blocks) < 2 {
+			continue
+		}
+		gate := true
+		for _, blk := range blocks[:2] {
+			top := ""
+			for _, l := range strings.Split(blk, "\n") {
+				l = strings.TrimSpace(l)
+				if l == "" || strings.HasPrefix(l, "/") || strings.HasPrefix(l, "WARNING") || strings.HasPrefix(l, "Read ") || strings.HasPrefix(l, "Write ") || strings.HasPrefix(l, "Previous ") || strings.HasPrefix(l, "Atomic ") || strings.HasPrefix(l, "runtime.") || strings.HasPrefix(l, "sync.") || strings.HasPrefix(l, "sync/atomic.") ||
+					strings.HasPrefix(l, "internal/") || strings.HasPrefix(l, "reflect.") || strings.HasPrefix(l, "go.minekube.com/gate/pkg/zzverif/simrt.") {
+					continue
+				}
+				top = l
+				break
+			}
+			if !strings.HasPrefix(top, "go.minekube.com/gate/") || strings.Contains(top, "/zzverif/") {
+				gate = false
+			}
+		}
+		if gate {
+			keep = append(keep, "==================\n"+strings.TrimSpace(rep)+"\n==================")
+			if len(keep) >= 4 {
+				break
+			}
+		}
+	}
+	return strings.Join(keep, "\n")
 }
